@@ -50,6 +50,8 @@ func runC05(c *Ctx) {
 	defer c05Composite(c)
 	c.Rule("C05.R6", "a new cluster (host set + balancer) becomes visible to lookups only after the update handler filled it", 2)
 	defer publishAfterInit(c, "C05.R6")
+	c.Rule("C05.R7", "the health word a balancer consults is the one the checker writes: the per-address registry is append-only", 1)
+	defer healthRegistryAppendOnly(c, "C05.R7")
 	c.Assumptions = append(c.Assumptions,
 		"Health() observed true earlier on the path counts as healthy (a concurrent flip after the check is outside the clause)",
 		"no reflection/unsafe in the balancers",
